@@ -24,6 +24,8 @@ CORRESPONDENCE = {
     'lemma_bitlen_2x1': 'Pyvc.bitlen_2x1', 'lemma_mul_assoc3': 'Pyvc.lemma_mul_assoc3',
     'lemma_mul_cancel_eq': 'Pyvc.lemma_mul_cancel_eq', 'lemma_mul_distrib': 'Pyvc.lemma_mul_distrib',
     'lemma_bitlen_ge': 'Pyvc.bitlen_ge', 'lemma_sq_expand': 'Pyvc.lemma_sq_expand',
+    'lemma_isqrt_unique': 'Pyvc.lemma_isqrt_unique', 'lemma_sq_mono': 'Pyvc.lemma_sq_mono', 'lemma_sq_mono_lt': 'Pyvc.lemma_sq_mono_lt',
+    'lemma_sq_cancel': 'Pyvc.lemma_sq_cancel',
     'lemma_pow2_le': 'Pyvc.pow2_le', 'lemma_mul_eq2': 'Pyvc.lemma_mul_eq2',
     'lemma_cfix_shift': 'Pyvc.cfix_shift', 'lemma_cfix_nonneg': 'Pyvc.cfix_nonneg',
     'lemma_r_fun_mono': 'Pyvc.exp_mono / log_mono / sqrt_mono / arctan_mono',
